@@ -156,6 +156,7 @@ type R3Msg struct {
 	Kind  string `json:"kind"`
 	Dir   string `json:"dir"` // a2b (renter writes) | b2a (host writes)
 	Err   bool   `json:"err"` // sent with WriteResponseErr as an RPCError
+	Wrap  int    `json:"wrap,omitempty"` // with Err: 0 an *RPCError, 1 a plain error, 2/3 an *RPCError wrapped once/twice
 	N     int    `json:"n"`
 	Limit string `json:"limit"` // exact | loose | under
 }
@@ -179,6 +180,7 @@ type R3Case struct {
 type r3plan struct {
 	obj    rhp3.ProtocolObject
 	rpcErr *rhp3.RPCError
+	sendErr error // what WriteResponseErr is given; rpcErr is what must arrive
 	maxLen uint64
 	under  bool
 	writer int // 0 renter, 1 host
@@ -254,6 +256,20 @@ func checkRHP3(c R3Case) error {
 			enc := 0
 			if m.Err {
 				p.rpcErr = &rhp3.RPCError{Type: r.spec(), Data: r.bytes(m.N % 200), Description: r.str(m.N % 400)}
+				p.sendErr = p.rpcErr
+				// an error that merely wraps an RPCError is not one: "a generic RPCError is created from err's Error string"
+				switch m.Wrap {
+				case 1:
+					p.sendErr = errors.New(p.rpcErr.Description)
+				case 2:
+					p.sendErr = fmt.Errorf("couldn't load the price table: %w", p.rpcErr)
+				case 3:
+					p.sendErr = fmt.Errorf("stream %d: %w", si, fmt.Errorf("couldn't load the price table: %w", p.rpcErr))
+				}
+				if m.Wrap != 0 {
+					p.rpcErr = &rhp3.RPCError{Description: p.sendErr.Error()}
+					rec.Label("rhp3:error-response-not-itself-an-RPCError")
+				}
 				enc = encLen(p.rpcErr)
 			} else {
 				k := r3byName(m.Kind)
@@ -378,7 +394,7 @@ func checkRHP3(c R3Case) error {
 					o.done = true
 					if p.writer == side {
 						if p.rpcErr != nil {
-							o.err = st.WriteResponseErr(p.rpcErr)
+							o.err = st.WriteResponseErr(p.sendErr)
 						} else {
 							o.err = st.WriteResponse(p.obj)
 						}
@@ -577,6 +593,9 @@ func drawRHP3(t *rapid.T) R3Case {
 		nm := rapid.IntRange(0, 4).Draw(t, "msgs")
 		for j := 0; j < nm; j++ {
 			m := R3Msg{Dir: rapid.SampledFrom([]string{"a2b", "b2a", "b2a"}).Draw(t, "dir"), Err: rapid.IntRange(0, 5).Draw(t, "err") == 0}
+			if m.Err {
+				m.Wrap = rapid.SampledFrom([]int{0, 0, 1, 2, 3}).Draw(t, "wrap")
+			}
 			if m.Err {
 				m.N = rapid.IntRange(0, 400).Draw(t, "errn")
 			} else {
